@@ -67,6 +67,8 @@ type hist struct {
 	ctr      uint64
 	step     int
 	usedNums map[*sim.RawClient][]uint16
+	actor    *sim.RawClient
+	crossFx  bool
 }
 
 func (h *hist) payload(n int) []byte {
@@ -239,6 +241,7 @@ func (h *hist) open() []*sim.RawClient {
 
 func (h *hist) opAllocate() {
 	c := pick(h.rng, h.open())
+	h.actor = c
 	o := sim.AllocOpts{Lifetime: h.lifetime()}
 	if o.Lifetime != nil && *o.Lifetime == 0 && h.rng.Intn(4) != 0 {
 		o.Lifetime = nil
@@ -291,6 +294,7 @@ func (h *hist) withAlloc() *sim.RawClient {
 
 func (h *hist) opRefresh() {
 	c := h.withAlloc()
+	h.actor = c
 	l := h.lifetime()
 	if l != nil && *l == 0 && h.rng.Intn(3) != 0 {
 		l = sim.U32(uint32(1 + h.rng.Intn(1200)))
@@ -298,10 +302,14 @@ func (h *hist) opRefresh() {
 	h.m.Refresh(c, l)
 }
 
-func (h *hist) opRefresh0() { h.m.Refresh(h.withAlloc(), sim.U32(0)) }
+func (h *hist) opRefresh0() {
+	h.actor = h.withAlloc()
+	h.m.Refresh(h.actor, sim.U32(0))
+}
 
 func (h *hist) opCreatePerm() {
 	c := h.withAlloc()
+	h.actor = c
 	n := 1
 	if h.rng.Intn(4) == 0 {
 		n = 2 + h.rng.Intn(2)
@@ -339,6 +347,7 @@ func (h *hist) chanNumber(c *sim.RawClient) uint16 {
 
 func (h *hist) opChanBind() {
 	c := h.withAlloc()
+	h.actor = c
 	num := h.chanNumber(c)
 	p := h.peerForFamily(c)
 	// prefer re-binding the peer already bound to this number half of the time
@@ -562,7 +571,14 @@ func (h *hist) run() {
 	}
 	for h.step = 0; h.step < n; h.step++ {
 		h.rec.SetStep(h.step)
-		switch pick(h.rng, ops) {
+		op := pick(h.rng, ops)
+		var before map[string]string
+		isReq := op == "allocate" || op == "refresh" || op == "refresh0" || op == "perm" || op == "chan"
+		if h.crossFx && isReq {
+			before = h.snapAll()
+			h.actor = nil
+		}
+		switch op {
 		case "allocate":
 			h.opAllocate()
 		case "refresh":
@@ -586,6 +602,9 @@ func (h *hist) run() {
 				h.opCloseTCP()
 			}
 		}
+		if before != nil && h.actor != nil {
+			h.diffCheck(before, h.snapAll(), h.actor, op)
+		}
 		h.m.CrossCheck()
 		if len(h.rec.Violations()) > 0 {
 			break
@@ -593,6 +612,46 @@ func (h *hist) run() {
 	}
 	h.rec.SetSample(map[string]any{"clients": len(h.clients), "peers": len(h.peers), "steps": h.step, "v6": h.v6,
 		"perm_timeout": h.m.PermTO.String(), "chan_timeout": h.m.ChanTO.String(), "default_lifetime": h.m.DefLife.String()})
+}
+
+// snapAll renders every allocation of every manager as a string keyed by listener|client address.
+func (h *hist) snapAll() map[string]string {
+	out := map[string]string{}
+	for li, mgr := range h.w.Srv.VerifManagers() {
+		snap, _, ok := mgr.VerifSnapshot()
+		if !ok {
+			return nil
+		}
+		for _, s := range snap {
+			out[fmt.Sprintf("L%d|%s", li, s.Src)] = fmt.Sprintf("user=%s relay=%s tcp=%v fam=%d perms=%v chans=%v conns=%v", s.UserID, s.Relay, s.TCP, s.Family, s.Permissions, s.Channels, s.TCPConns)
+		}
+	}
+
+	return out
+}
+
+// diffCheck: a request of one 5-tuple may change only that 5-tuple's state (no virtual time
+// passes during a request, so nothing else can legitimately change).
+func (h *hist) diffCheck(before, after map[string]string, actor *sim.RawClient, op string) {
+	if before == nil || after == nil {
+		return
+	}
+	ak := actor.Key()
+	for k, v := range before {
+		if k == ak {
+			continue
+		}
+		if after[k] != v {
+			h.rec.Violate("snap-cross-effect", op, "%s by %s changed the state of another 5-tuple %s: %q -> %q", op, actor.Name, k, v, after[k])
+		}
+	}
+	for k, v := range after {
+		if _, ok := before[k]; !ok && k != ak {
+			h.rec.Violate("snap-cross-effect", op, "%s by %s created state for another 5-tuple %s: %q", op, actor.Name, k, v)
+		}
+	}
+	h.rec.Ev("cross-effect-checks")
+	h.rec.FP("crossfx/%s/others=%d", op, len(before))
 }
 
 var baseWeights = map[string]int{"allocate": 3, "refresh": 2, "refresh0": 1, "perm": 5, "chan": 5, "data": 8, "probe": 4, "time": 3, "closetcp": 1}
